@@ -18,7 +18,9 @@ def main(tier, args):
     NL = 8; hl = [vf.BUILD + "/C16/hashes_late_%d.bin" % i for i in range(NL)]
     if not args.only:
         jobs += [("late%d" % i, [exe, str(i), str(NL), str(cap // 2), str(depth), str(nest), hl[i]], {"C16_TERM_LATE": "1"}) for i in range(NL)]
-        hf = hf + hl
+        hb = [vf.BUILD + "/C16/hashes_badh_%d.bin" % i for i in range(4)]
+        jobs += [("badh%d" % i, [exe, str(i), "4", str(cap // 4), str(depth), str(nest), hb[i]], {"C16_BAD_HANDLER": "1"}) for i in range(4)]
+        hf = hf + hl + hb
     vf.run_procs(res, jobs, env={"VERIF_DEADLINE_S": str(dl)}, log=log, jobs=24)
     vf.run_procs(res, [("merge", [exe, "merge"] + hf)], log=log)
     for f in hf:
@@ -33,7 +35,7 @@ def main(tier, args):
     res.viols = [v for l in best.values() for v in l]
     st = res.stats
     vf.finish(PID, tier, res, t0,
-              rule="PROGRAMS (each in two definition orders: terminal state created before / after the routes that target it; the second order on half the cap): every canonical StateMachine definition in order of weight (<=3 states + optional user-defined terminal state, events {1,2} + any, "
+              rule="PROGRAMS (plus a lane on a quarter of the cap in which declining handlers return an id that names no state: the event must be dropped and the machine stay usable; each in two definition orders: terminal state created before / after the routes that target it; the second order on half the cap): every canonical StateMachine definition in order of weight (<=3 states + optional user-defined terminal state, events {1,2} + any, "
                    "<=3 routes/state over (event|any, target incl. terminal, guard none/true/false/flip-flop), per-state handlers for a specific event and for any event "
                    "returning -1 or an existing target, a sub-machine per state, nesting depth <=%d, optional setInitState; weight = states+routes+guards+handlers+flags+sub-machines; "
                    "canonical = all states reachable, numbered in discovery order, first specific event is 1), first %d machines (see caps_hit for the weight reached); "
